@@ -55,6 +55,19 @@ def topology():
     with warnings.catch_warnings():
         warnings.simplefilter("ignore")
         top = md.load(os.path.join(files.VERIF, "seeds", "mix.h5")).topology
+        # a nucleotide-like residue whose atom names carry primes and a star (only expressible as quoted literals), next to
+        # the unprimed names they must not be confused with
+        from mdtraj.core import element as _el
+        ch = top.add_chain()
+        for rn, rs in (("G", 901), ("DA5", 902)):
+            r = top.add_residue(rn, ch, resSeq=rs)
+            prev = None
+            for nm, e in (("P", _el.phosphorus), ("O5'", _el.oxygen), ("C5'", _el.carbon), ("C5", _el.carbon), ("O5", _el.oxygen),
+                          ("H5''", _el.hydrogen), ("H5'", _el.hydrogen), ("C2'", _el.carbon), ("C2", _el.carbon), ("O2*", _el.oxygen)):
+                a = top.add_atom(nm, e, r)
+                if prev is not None:
+                    top.add_bond(prev, a)
+                prev = a
     nb = {}
     for b in top.bonds:
         nb[b[0].index] = nb.get(b[0].index, 0) + 1
